@@ -216,7 +216,8 @@ def watch_cases(ctx, world, n):
     from deep.api.tracepoint.trigger import LocationAction, Trigger, LineLocation, Location
     rng = ctx.rng
     pool = ["a", "b + 1", "len(s)", "s.upper()", "d['k']", "missing", "1/0", "d['nope']", "s.nope", "boom()", "exit_()", "G", "a +",
-            " a", "\tb + 1", "  len(s) "]          # an expression may start with blanks (eval skips them)
+            " a", "\tb + 1", "  len(s) ",         # an expression may start with blanks (eval skips them)
+            "a == 5", "b==a", "s == 'txt'", "a != b", "a >= b", "x = a", "n=a"]      # comparisons; `x = a` is not an expression at all
 
     def snap_for(watches, loc, glb):
         action = LocationAction("tp", None, {"fire_count": "-1", "fire_period": "0", "frame_type": "single_frame", "watches": watches},
@@ -254,8 +255,8 @@ def watch_cases(ctx, world, n):
             va, vb = view(s, w), view(alone, alone.watches[0])
             if va != vb:
                 ctx.fail("watch %r gives %r among %s but %r alone" % (w_expr, va, ws, vb), j, tag="watch-dependent")
-            failing = w_expr in ("missing", "1/0", "d['nope']", "s.nope", "boom()", "exit_()", "a +")
-            if not failing and va[0] == "value" and type(eval(w_expr, dict(glb), dict(loc))) in (int, str, float) \
+            failing = w_expr in ("missing", "1/0", "d['nope']", "s.nope", "boom()", "exit_()", "a +", "x = a", "n=a")
+            if not failing and va[0] == "value" and type(eval(w_expr, dict(glb), dict(loc))) in (int, str, float, bool) \
                     and va[2] != str(eval(w_expr, dict(glb), dict(loc))):
                 ctx.fail("watch %r gives %r, the frame gives %r" % (w_expr, va, str(eval(w_expr, dict(glb), dict(loc)))), j, tag="watch-value")
             is_err = va[0] == "error" or (va[1] or "").endswith(("Error", "Exit"))
